@@ -61,7 +61,11 @@ type Case struct {
 	Rule     string   `json:"rule,omitempty"`
 	Opts     Opts     `json:"opts,omitempty"`
 	Phases   []Phase  `json:"phases,omitempty"` // kind "sequence"
-	Class    string   `json:"class,omitempty"`
+	// kind "slicefaults": a multi-slice range query; upstream 0 fails SOME slices (table as in fakeprom.Bitmap.Faults)
+	// and answers the others, upstream 1 is healthy
+	SliceFaults []string `json:"slice_faults,omitempty"`
+	StepSec     int64    `json:"step_sec,omitempty"`
+	Class       string   `json:"class,omitempty"`
 }
 
 // Phase: one fault assignment of a sequence case, and the calls made through the (same, live) group while it lasts.
@@ -689,6 +693,106 @@ func bucketN(n int) string {
 }
 
 // ---------------------------------------------------------------------------
+// part 1, per-slice faults: the first upstream answers some slices of a range query and fails others
+
+// Known-finding class "slice-cancel-error-masks-unavailability": one slice of a range query fails with an
+// unavailability fault (503 / connection reset) while a sibling slice of the same upstream is still being read; the
+// failed slice cancels the query, the sibling's read is cut off, its "JSON parse error: context canceled" (a
+// bad_response, i.e. not an outage) can replace the real error as the query's result, and the group returns that
+// instead of failing over to the healthy next upstream. Decided from the case and the request log only: kind
+// slicefaults, upstream 0 served at least one faulty and was asked at least one healthy slice, the call returned an
+// error and upstream 1 was never contacted.
+const classMasked = "slice-cancel-error-masks-unavailability"
+
+var tolerateMasked = func() bool { _, ok := vstat.KnownClasses(prop)[classMasked]; return ok }()
+
+func checkSliceFaults(c Case) (inf info, err error) {
+	if len(c.SliceFaults) == 0 || c.StepSec <= 0 || c.Slices < 2 {
+		return inf, fmt.Errorf("%w: not a slicefaults case", errInconclusive)
+	}
+	start := rangeBase
+	end := rangeBase + int64(c.Slices)*7200 - c.StepSec
+	// one series, present everywhere: every slice response carries Slices*7200/step samples
+	nbits := int((end-start)/c.StepSec) + 8
+	series := []fakeprom.BitmapSeries{{Labels: map[string]string{"upstream": "x"}, Runs: []int{0, nbits}}}
+	mk := func(faults []string) *fakeprom.BitmapServer {
+		return fakeprom.NewBitmapServer(fakeprom.Bitmap{Origin: start, Step: c.StepSec, Series: series, Faults: faults}, false)
+	}
+	s0, s1 := mk(c.SliceFaults), mk(nil)
+	defer s0.Close()
+	defer s1.Close()
+	proms := []*promapi.Prometheus{
+		promapi.NewPrometheus("c15", s0.URL(), "", nil, 30*time.Second, c.Slices+2, 1_000_000, nil),
+		promapi.NewPrometheus("c15", s1.URL(), "", nil, 30*time.Second, c.Slices+2, 1_000_000, nil),
+	}
+	fg := promapi.NewFailoverGroup("c15", s0.URL(), proms, c.Required, "up", nil, nil, nil)
+	reg := prometheus.NewRegistry()
+	fg.StartWorkers(reg)
+	defer fg.Close(reg)
+
+	type out struct {
+		r   *promapi.RangeQueryResult
+		err error
+		pan any
+	}
+	done := make(chan out, 1)
+	go func() {
+		var o out
+		defer func() {
+			if p := recover(); p != nil {
+				o.pan = p
+			}
+			done <- o
+		}()
+		o.r, o.err = fg.RangeQuery(context.Background(), "c15_slices", absRange{start, end, c.StepSec})
+	}()
+	var o out
+	select {
+	case o = <-done:
+	case <-time.After(120 * time.Second):
+		return inf, fmt.Errorf("%w: no result within 120s", errInconclusive)
+	}
+	if o.pan != nil {
+		return inf, fmt.Errorf("panic: %v", o.pan)
+	}
+	faultOf := func(st int64) string {
+		n := int64(len(c.SliceFaults))
+		return c.SliceFaults[((st/1800)%n+n)%n]
+	}
+	faulty, fine := 0, 0
+	for _, r := range s0.Requests() {
+		if faultOf(r.Start) != "" {
+			faulty++
+		} else {
+			fine++
+		}
+	}
+	contacted1 := len(s1.Requests())
+	inf.class = fmt.Sprintf("slicefaults:faulty=%s:fine=%s", bucketN(faulty), bucketN(fine))
+	inf.nontrivial = faulty > 0 && fine > 0
+	inf.observed = fmt.Sprintf("upstream 0 was asked %d slice(s) it fails and %d it answers, upstream 1 saw %d request(s)", faulty, fine, contacted1)
+	where := fmt.Sprintf("range query of %d slices (step %ds), upstream 0 slice faults %v, upstream 1 healthy, required=%v", c.Slices, c.StepSec, c.SliceFaults, c.Required)
+	switch {
+	case faulty == 0: // none of the requested slices hit a fault: upstream 0 answers
+		if o.err != nil || o.r.URI != s0.URL() || contacted1 > 0 {
+			return inf, fmt.Errorf("%s: upstream 0 answered every slice, yet the result is %v / upstream 1 was contacted; %s", where, o.err, inf.observed)
+		}
+	case o.err != nil && contacted1 == 0:
+		if tolerateMasked && fine > 0 {
+			inf.knownHits = append(inf.knownHits, classMasked)
+			return inf, nil
+		}
+		return inf, fmt.Errorf("%s: a slice of upstream 0 failed with an unavailability fault, upstream 1 should have been contacted and answer, but the query failed with %q; %s",
+			where, o.err, inf.observed)
+	case o.err != nil:
+		return inf, fmt.Errorf("%s: upstream 1 is healthy but an error was returned: %v; %s", where, o.err, inf.observed)
+	case o.r.URI != s1.URL():
+		return inf, fmt.Errorf("%s: the answer should be upstream 1's, it is attributed to %s; %s", where, o.r.URI, inf.observed)
+	}
+	return inf, nil
+}
+
+// ---------------------------------------------------------------------------
 // part 2
 
 // Opts: the documented settings of the checks of part 2 (config `check "..." {}` / rule options), all optional.
@@ -908,6 +1012,8 @@ func runOnce(c Case) (info, error) {
 		return checkChecks(c)
 	case "sequence":
 		return checkSequence(c)
+	case "slicefaults":
+		return checkSliceFaults(c)
 	}
 	return info{}, fmt.Errorf("unknown case kind %q", c.Kind)
 }
@@ -917,7 +1023,9 @@ func runOnce(c Case) (info, error) {
 // unreachable once), otherwise the case is inconclusive.
 func run(c Case) (info, error) {
 	inf, err := runOnce(c)
-	if err == nil || errors.Is(err, errInconclusive) {
+	if err == nil || errors.Is(err, errInconclusive) || c.Kind == "slicefaults" {
+		// (slicefaults: whether a sibling slice is mid-read when another fails is a matter of timing by nature; the
+		// request logs of both upstreams are the evidence, a second run proves nothing)
 		return inf, err
 	}
 	if _, err2 := runOnce(c); err2 == nil {
@@ -1202,7 +1310,7 @@ func knownClass(c Case) string { return "" }
 var wsRe = regexp.MustCompile(`\s+`)
 
 func caseKey(c Case) string {
-	return fmt.Sprintf("%s|%s|%v|%v|%d|%s|%s|%+v|%+v", c.Kind, c.Endpoint, c.Modes, c.Required, c.Slices, c.Check, c.Rule, c.Opts, c.Phases)
+	return fmt.Sprintf("%s|%s|%v|%v|%d|%s|%s|%+v|%+v|%v|%d", c.Kind, c.Endpoint, c.Modes, c.Required, c.Slices, c.Check, c.Rule, c.Opts, c.Phases, c.SliceFaults, c.StepSec)
 }
 
 type recorder struct {
@@ -1272,7 +1380,18 @@ func driveRapid(t *testing.T, gen func(*rapid.T) Case) {
 
 func TestPropFailover(t *testing.T)    { driveRapid(t, genFailover) }
 func TestPropFailoverSeq(t *testing.T) { driveRapid(t, genSequence) }
-func TestPropChecks(t *testing.T)      { driveRapid(t, genChecks) }
+func TestPropSliceFaults(t *testing.T) { driveRapid(t, genSliceFaults) }
+
+func genSliceFaults(t *rapid.T) Case {
+	c := Case{Kind: "slicefaults", Endpoint: "query_range"}
+	c.Slices = rapid.IntRange(2, 6).Draw(t, "slices")
+	c.StepSec = rapid.SampledFrom([]int64{2, 5, 5, 15, 60}).Draw(t, "step") // small steps = big slice responses
+	n := rapid.SampledFrom([]int{3, 5, 7}).Draw(t, "tablelen")              // slice starts are 4 table positions apart
+	c.SliceFaults = rapid.SliceOfN(rapid.SampledFrom([]string{"", "", "503", "reset"}), n, n).Draw(t, "faults")
+	c.Required = rapid.Bool().Draw(t, "required")
+	return c
+}
+func TestPropChecks(t *testing.T) { driveRapid(t, genChecks) }
 
 // TestFaultTable enumerates the whole fault table (thorough tier).
 func TestFaultTable(t *testing.T) {
@@ -1391,7 +1510,13 @@ func TestReplay(t *testing.T) {
 	if err := vstat.LoadReplay(p, &c); err != nil {
 		t.Fatal(err)
 	}
+	// a replay is judged as if no finding were listed: a `known` replay has to fail while the finding is still there
+	tolerate5xxJSON, tolerateMasked = false, false
 	_, err := run(c)
+	// whether a sibling slice is mid-read when another slice fails is a matter of timing: such a case is tried repeatedly
+	for i := 0; c.Kind == "slicefaults" && err == nil && i < 40; i++ {
+		_, err = run(c)
+	}
 	if errors.Is(err, errInconclusive) {
 		t.Skipf("inconclusive: %v", err)
 	}
